@@ -556,6 +556,123 @@ class C05(ResolveSpec):
         return out
 
 
+def corpus_case(pid, name):
+    with open(os.path.join(VERIF, "corpus", pid, name + ".json")) as f:
+        return json.load(f)
+
+
+class C04(ResolveSpec):
+    pid = "C04"
+    coq_files = ["Properties/C04.v"]
+    theorems = ["C04_conflict_any_audit_or_exemption", "C04_partial_only_grants_or_unpublished_dodge",
+                "C04_refuted_wildcard", "C04_refuted_trusted", "C04_refuted_unpublished"]
+    level_text = ("Theorem C04_conflict_any_audit_or_exemption: for every graph and store, an audit (own or imported, full or delta) "
+                  "or exemption of an in-graph third-party crate that touches a version covered by a violation while claiming a "
+                  "violated criterion makes the model's resolve conclude FailForViolationConflict, used or not. The property's main "
+                  "clause is FALSE of the faithful model and of the code: C04_refuted_wildcard/_trusted/_unpublished exhibit stores "
+                  "that vet successfully although a violation covers the in-graph version for a required criterion (known findings "
+                  "F-C04-*, replayed on the implementation every run); C04_partial_only_grants_or_unpublished_dodge proves these three "
+                  "record kinds are the ONLY way: a success despite a covering violation must end in a publisher grant or an "
+                  "unpublished link.")
+    level_note = ("as C01. The oracle checks the property text directly on the implementation and classifies a success-despite-"
+                  "violation by the kind of the last link of the reported path; only wildcard/trusted/unpublished last links are known findings.")
+    design_ref = "DESIGN.md §4 C04"
+    rule = ("as C01 with violation entries (=v, *, <v, >=v; single and multi-criteria lists) in the local file and in imports on "
+            "about half of the crates, combined with every certifying record kind; non-trivial = a violation entry covers the "
+            "version of an in-graph crate")
+    projection_doc = "conclusion kind; the list of violation conflicts per package (kind, sources, indices)"
+    gen_kwargs = {"p_violation": 0.5}
+
+    def gen_cases(self, rng, n):
+        cases = []
+        for i in range(n):
+            c = gen.gen_resolve_case(rng, f"g{i}", p_violation=0.5)
+            if i % 2:
+                gen.boost_grants(rng, c)
+            cases.append(c)
+        return cases
+
+    def findings(self):
+        out = []
+        for name in ("wildcard", "trusted", "unpublished"):
+            out.append((f"F-C04-{name}", corpus_case("C04", f"F-C04-{name}"),
+                        lambda o: o["status"] == "ok" and O.Report(o["obs"]).kind == "success"))
+        return out
+
+    def project(self, rep, o, model=None):
+        return {"kind": rep.kind, "conflicts": sorted((i, json.dumps(c)) for i, c in rep.conflicts().items())}
+
+    def _covering(self, o):
+        """[(node index, violated criterion)] for in-graph third-party nodes"""
+        store = o["model_input"]["store"]
+        nodes, _ = O.graph_nodes(o["model_input"]["graph"])
+        out = []
+        for i, nd in enumerate(nodes):
+            if not nd["third"]:
+                continue
+            ps = O.pkg_store(store, nd["name"])
+            for l in list(ps[0]) + [ps[1]]:
+                for a in l:
+                    k, ka, crit, importable, fresh = O.audit_fields(a)
+                    if k == "KViolation" and nd["version"] in ka[0]:
+                        out += [(i, cv) for cv in crit]
+        return out
+
+    def nontrivial(self, case, o, rep):
+        return bool(self._covering(o))
+
+    def oracle(self, case, o, rep):
+        out = []
+        store = o["model_input"]["store"]
+        table = O.table_of(store)
+        nodes, _ = O.graph_nodes(o["model_input"]["graph"])
+        names = o["tables"]["nodes"]
+        # (a) a covering violation for a criterion implied by a required one: no success
+        if rep.kind == "success":
+            req = {}
+            for (i, c) in required_pairs(rep, o):
+                req.setdefault(i, []).append(c)
+            for (i, cv) in self._covering(o):
+                for r in req.get(i, []):
+                    if cv in O.closure(table, r):
+                        sr = rep.search(i, r)
+                        last = sr[1][0] if sr and sr[0] == "ok" and len(sr) > 1 else "?"
+                        fid = {"W": "F-C04-wildcard", "T": "F-C04-trusted", "U": "F-C04-unpublished"}.get(last)
+                        out.append({"what": f"vet succeeds although a violation covers {names[i]} for {o['tables']['criteria'][cv]} "
+                                            f"(required: {o['tables']['criteria'][r]}); last link of the chain: {last}", "finding": fid})
+                        break
+        # (b) an audit/exemption touching a violating version and claiming a violated criterion => conflict
+        for i, nd in enumerate(nodes):
+            if not nd["third"]:
+                continue
+            ps = O.pkg_store(store, nd["name"])
+            audits = [a for l in ps[0] for a in l] + list(ps[1])
+            expect = False
+            for va in audits:
+                k, ka, vcrit, _, _ = O.audit_fields(va)
+                if k != "KViolation":
+                    continue
+                rng_ = set(ka[0])
+                vsets = [O.closure(table, c) for c in vcrit]
+                for a in audits:
+                    k2, ka2, crit2, _, _ = O.audit_fields(a)
+                    if k2 == "KViolation":
+                        continue
+                    cl = O.from_list(table, crit2)
+                    if any(vs <= cl for vs in vsets) and (set(ka2) & rng_):
+                        expect = True
+                for x in ps[7]:
+                    xv, xc, _ = O.args(x)
+                    if xv in rng_ and any(vs <= O.from_list(table, xc) for vs in vsets):
+                        expect = True
+            has = rep.kind == "violation" and i in rep.conflicts()
+            if expect and not has:
+                out.append(f"{names[i]}: an audit or exemption touches a violating version while claiming a violated criterion, but no violation conflict is reported (conclusion {rep.kind})")
+            if has and not expect:
+                out.append(f"{names[i]}: a violation conflict is reported although no audit or exemption touches a violating version for a violated criterion")
+        return out
+
+
 import hist  # noqa: E402
 
 
@@ -677,7 +794,7 @@ class C13(HistorySpec):
     assumptions = C09.assumptions
 
 
-REGISTRY = {c.pid: c for c in [C01, C02, C05, C06, C09, C10, C11, C12, C13]}
+REGISTRY = {c.pid: c for c in [C01, C02, C04, C05, C06, C09, C10, C11, C12, C13]}
 
 
 def get(pid):
